@@ -790,6 +790,21 @@ def o_c17(tr):
                         yield {"oracle": "total-supply-page", "signature": "native" if den == dn else "other", "detail": "QUERY %s: %s listed %d, want %d" % (q["n"], den, a, want)}
 
 
+def _ent_denom_changed(digest):
+    """the enterprise books (total locked / spent, non-zero) are in another denomination than the current parameter"""
+    pd = None; books = []
+    for l in digest:
+        t = l.split()
+        if t[:2] == ["D", "ent.params"] and len(t) > 2:
+            pd = t[2]
+        elif t[:2] == ["D", "ent.total"]:
+            for c in t[2:4]:
+                m = re.match(r"^(\d+)(.+)$", c)
+                if m and int(m.group(1)) > 0:
+                    books.append(m.group(2))
+    return pd is not None and any(b != pd for b in books)
+
+
 def o_c15(tr):
     """export -> InitChain on a fresh app: succeeds, no invariant broken, same observable state, identical second export"""
     il = tr.impl_lines
@@ -807,6 +822,8 @@ def o_c15(tr):
                 why = il[i + 1] if i + 1 < len(il) and il[i + 1].startswith("x panic") else ""
                 if "expected_module_account" in why:
                     cls = "gov-balance"
+                elif "invalid_coin_denominations" in why and _ent_denom_changed(before):
+                    cls = "denom-change"
                 elif "invariant_broken" in why:
                     cls = "invariant-" + (re.findall(r"invariant_broken:_([a-z]+)", why) or ["?"])[0]
                 else:
